@@ -306,6 +306,55 @@ func runC16(c *ctx) {
 		c16Eval(c, c16Case{Source: "direct", Item: it})
 		c16Eval(c, c16Case{Source: "direct", Item: &ref.Item{Kind: ref.L, Children: []*ref.Item{it, {Var: "after"}}}})
 	}
+	// items and lists with exactly n variables, n up to 1000, names in no particular order, literals interleaved
+	// (the listing must keep printed order however many names one item holds)
+	{
+		r := c.rnd.Derive(16)
+		ns := []int{64, 65, 100, 255, 256, 257, 1000}
+		for n := 1; n <= 40; n++ {
+			ns = append(ns, n)
+		}
+		kinds := []ref.Kind{ref.L, ref.U1, ref.U2, ref.U4, ref.U8, ref.I1, ref.I2, ref.I4, ref.I8, ref.F4, ref.F8, ref.B, ref.BOOLEAN}
+		for _, n := range ns {
+			for _, k := range kinds {
+				if n > 40 && r.Chance(1, 2) {
+					continue
+				}
+				names := make([]string, n)
+				for i := range names {
+					names[i] = fmt.Sprintf("%c%x", 'a'+rune(r.Intn(26)), r.U64()&0xffffff) + fmt.Sprint(i)
+				}
+				gap := r.Intn(3) // literals between variables
+				var it *ref.Item
+				if k == ref.L {
+					it = &ref.Item{Kind: ref.L}
+					for i := 0; i < n; i++ {
+						for j := 0; j < gap; j++ {
+							it.Children = append(it.Children, &ref.Item{Kind: ref.U1, Slots: []ref.Slot{{Uint: uint64(j)}}})
+						}
+						it.Children = append(it.Children, &ref.Item{Var: names[i]})
+					}
+				} else {
+					it = &ref.Item{Kind: k}
+					for i := 0; i < n; i++ {
+						for j := 0; j < gap; j++ {
+							it.Slots = append(it.Slots, ref.Slot{})
+						}
+						it.Slots = append(it.Slots, ref.Slot{Var: names[i]})
+					}
+				}
+				c.Class("n-variables-in-one-node")
+				c16Eval(c, c16Case{Source: "direct", Item: it})
+				c16Eval(c, c16Case{Source: "direct", Item: &ref.Item{Kind: ref.L, Children: []*ref.Item{{Var: "before"}, it, {Var: "after"}}}})
+				if n <= 100 {
+					m := gen.New(r, gen.Profile{}).Msg(it, false)
+					m.Session = -1
+					c16Eval(c, c16Case{Source: "parsed", Text: ref.PrintMsg(m)})
+					c16Eval(c, c16Case{Source: "message", Msg: m})
+				}
+			}
+		}
+	}
 	// one list object used as the first element of two parents (user-built sharing): each parent keeps its own names
 	for nsub := 1; nsub <= 17; nsub++ {
 		var subArgs []interface{}
@@ -379,7 +428,7 @@ func runC16(c *ctx) {
 			}
 		}
 	}
-	c.Required = []string{"item-just-beyond-the-limit", "shared-sub-list", "same-ellipsis-name-twice", "wide-item-with-variables", "rename-refused", "rename-accepted", "object/direct", "object/expanded", "object/message", "object/derived", "object/parsed", "variable-free", "with-variables"}
+	c.Required = []string{"item-just-beyond-the-limit", "shared-sub-list", "same-ellipsis-name-twice", "wide-item-with-variables", "n-variables-in-one-node", "rename-refused", "rename-accepted", "object/direct", "object/expanded", "object/message", "object/derived", "object/parsed", "variable-free", "with-variables"}
 }
 
 func replayC16(c *ctx, raw json.RawMessage) {
